@@ -8,12 +8,22 @@ EXTENDS Selector
 VARIABLE i
 Trace == ndJsonDeserialize(TraceFile)
 TInit == Init /\ i = 1 /\ RejectInit /\ TLCSet(2, 0)
-Check1(r) ==
+\* records of kind "model" come from TemplateModel.save_spikes_subset_waveforms, where the selector object is
+\* not observable: the kept chunks are then ANY regular-stride choice the statement allows
+CheckModel(r) ==
+  /\ Clause(r.id, "increasing", StrictlyIncreasing(r.result))
+  /\ Clause(r.id, "ValidSel(model)", \E s \in 1..Max2(1, NChunksOf(r.bounds)) :
+        LET K == {j \in 0..(NChunksOf(r.bounds) - 1) : j % s = 0}
+            ck == FlatFrom(r.bounds, s, 0) IN
+        /\ Cardinality(K) <= r.nkept
+        /\ ValidSelOf(SeqSet(r.result), r.times, r.clu, r.req, r.nreq, r.useChunks, SeqSet(r.subset), ck))
+CheckCall(r) ==
   /\ Clause(r.id, "chunksKept", r.chunksKept = ChunksKeptOf(r.bounds, r.nkept))
   /\ Clause(r.id, "KeptOk", KeptOkOf(r.bounds, r.nkept, r.chunksKept))
   /\ Clause(r.id, "increasing", StrictlyIncreasing(r.result))
   /\ Clause(r.id, "ValidSel", ValidSelOf(SeqSet(r.result), r.times, r.clu, r.req, r.nreq, r.useChunks,
                                         SeqSet(r.subset), r.chunksKept))
+Check1(r) == IF r.kind = "model" THEN CheckModel(r) ELSE CheckCall(r)
 TNext == /\ i <= Len(Trace) /\ Check1(Trace[i]) /\ TLCSet(2, i) /\ i' = i + 1 /\ UNCHANGED vars
 TSpec == TInit /\ [][TNext]_<<vars, i>>
 Accepted == Verdict(TLCGet(2)) /\ TLCGet(2) = Len(Trace)
